@@ -263,7 +263,7 @@ func (fr *frame) pos() string {
 }
 
 func (fr *frame) rtPanic(msg string) {
-	panic(targetRuntimeError{msg: msg, pos: fr.pos(), fn: fr.fn.String()})
+	panic(targetRuntimeError{msg: msg, pos: fr.pos(), fn: fr.fn.String(), stack: stackOf(fr)})
 }
 
 func (fr *frame) ptr(v value) *value {
